@@ -3823,9 +3823,13 @@ impl Lexer<'_> {
         // Start the new token
         self.start_token();
 
-        // Consume the ending
-        #[allow(clippy::cast_possible_truncation)]
-        self.cursor.advance_by(ending_len as u32);
+        // Consume the ending. If datalines are unterminated, there may be fewer
+        // terminator characters than expected (or none), so eat only those
+        for _ in 0..ending_len {
+            if !self.cursor.eat_char(';') {
+                break;
+            }
+        }
 
         // Add the datalines end token
         self.emit_token(TokenChannel::DEFAULT, TokenType::SEMI, Payload::None);
